@@ -774,4 +774,12 @@ example : errIs (Frame.unpack (Spec.frameOctets exTrunc) .fixed ⟨.fixed, 8, no
 example : errIs (Frame.unpack (Spec.frameOctets exFrame) .fixed ⟨.variable, 24, some 2, some 2⟩)
     (.py .value) = true := by decide +kernel
 
+
+/-! ## outside the statement (recorded for C09): a fixed frame whose data field is declared as one
+octet but whose rule requires the pointer — the decoder only checks the *buffer* for three octets,
+reads the pointer from the OCF and returns a frame whose `len()` (14) exceeds the declared 12. -/
+example : okIs (Frame.unpack [0xC0, 0, 0, 0, 0, 0x0B, 0x08, 0x00, 0xAA, 0xBB, 0xCC, 0xDD] .fixed ⟨.fixed, 12, none, none⟩)
+    ⟨.primary ⟨0, false, 0, 0, 11, false, false, true, 0, some 0⟩, ⟨0, 0, some 0xAABB, []⟩, none,
+     some [0xAA, 0xBB, 0xCC, 0xDD], none⟩ = true := by decide +kernel
+
 end SpVerif.Props.C17
